@@ -11,7 +11,7 @@ SPEC = {
                                     "C11_is_equal_symmetric_refuted", "C11_perm_invariant_unconditional_refuted",
                                     "C11_is_equal_reads_position", "C11_position_regression",
                                     "C11_protocol_delivers_exactly_once", "C11_protocol_no_deadlock",
-                                    "C11_protocol_terminates", "C11_protocol_preserves_job_order", "C11_protocol_nonvacuous", "C11_protocol_matches_source", "C11_runs_agree", "C11_runs_agree_exit", "C11_H2_from_job_invariants", "C11_key_covers_diagnostics", "C11_later_diagnostics_regression",
+                                    "C11_protocol_terminates", "C11_protocol_preserves_job_order", "C11_protocol_nonvacuous", "C11_protocol_matches_source", "C11_runs_agree", "C11_runs_agree_exit", "C11_H2_from_residue", "C11_key_covers_diagnostics", "C11_rule_identity_regression", "C11_later_diagnostics_regression",
                                     "C11_nonvacuous"]},
     "harness_args": lambda tier: ["C11", "--n", 240, "--perms", 12, "--scen", 26, "--bin", 5] if tier == "quick"
                                  else ["C11", "--n", 1500, "--perms", 30, "--scen", 160, "--bin", 40, "--race", 1],
@@ -42,7 +42,7 @@ SPEC = {
         "H1 (isEqual symmetric on the stream and implies equality of rendered fields) and H2 (sort key injective on isEqual classes) are "
         "premises of C11_perm_invariant; they are evaluated on every recorded real stream (histogram real:H1=..,H2=..), and every real "
         "stream is additionally replayed under job-order-preserving interleavings through the real Summary and reporters",
-        "J-loc (premise of C11_H2_from_job_invariants) is a property of what checks answer; not proved, measured on every real stream; H2 is monitored",
+        "R-kind and R-nodiag (premises of C11_H2_from_residue) are properties of discovery/checks; not proved, H2 is monitored on every real stream",
         "the reports a job produces depend only on (entry, check, all entries), not on scheduling or on state shared with other workers "
         "(searched by the binary runs with --workers 1..64 and the -race runs; two seeded races of this kind are caught, see notes/C11.md)",
     ],
@@ -55,14 +55,15 @@ MANIFEST = {
             "interleaving, of the per-job lists), cannot get stuck and is finite; its concurrency skeleton is re-extracted from scan.go's AST on every run and "
             "compared (cancellation via ctx.Done() is outside the model); hence any two complete runs with any worker counts/schedules give "
             "the same processed summary, JSON and console output under H1 and H2 (C11_runs_agree). For every report stream s and every permutation s' of it (a superset of all worker interleavings), "
-            "under H1 (isEqual symmetric on the stream's elements and implying equality of every rendered field) and H2 (the sort key, 7 scalars + all diagnostics, "
+            "under H1 (isEqual symmetric on the stream's elements and implying equality of every rendered field) and H2 (the sort key, 7 scalars + all diagnostics + rule lines/owner/target, "
             "is injective on isEqual classes), Summary.Report + SortReports + Dedup yield the identical list of reports, duplicate "
             "flags and folded duplicates, hence identical JSON and console output (any stream length: the model of Go's stable sort, insertion-sorted blocks merged by symMerge, "
             "is proved to return the unique strictly sorted permutation); the lint/ci exit status is permutation invariant unconditionally; isEqual is symmetric when diagnostics carry "
             "no repeated (columns,message) triple and refuted otherwise; the unconditional statement is refuted at Summary level "
-            "(Owner-only difference; asymmetric diagnostics). H2 follows from one named invariant of the job enumeration (a location belongs to one "
-            "entry), a statement about opaque checks, so H2 stays monitored; the sort key covers all diagnostics (fix 346020d, a real H2 failure of "
-            "promql/aggregate with several labels found by an independent reader, now a fixed scenario and a generated configuration stratum). isEqual reads the "
+            "(Owner-only difference; asymmetric diagnostics). H2 follows, for every stream, from two named residues (Rule.IsSame reads kind flags and parse Error besides the Lines that are "
+            "sort keys; the trailing keys Rule.Lines/Owner/SymlinkTarget are not read for reports without diagnostics), monitored through H2; the sort key "
+            "covers all diagnostics and the rule identity (fixes 346020d and bc86063: real H2 failures of promql/aggregate with several labels and of "
+            "rule/reject on group-level labels, both fixed scenarios and generated configuration strata now). isEqual reads the "
             "position of every diagnostic (two genuine schedule dependences found with this check were fixed in /repo: 1588b37, d8f60c6; their "
             "witnesses are replayed every run). Partial by nature: data-race freedom and the independence of a job's answer from what other workers do are "
             "a runtime remainder, searched in both tiers by a -race build and by comparing --workers 1 with 2..64 on scenarios in which every check runs many "
